@@ -107,6 +107,17 @@ def dec_faces(line, nfaces, R):
     return np.array(vals, dtype=object).reshape(nfaces, nx, ny, R)
 
 
+def nanify(arr):
+    """a model that only moves values around was fed NAN_SENTINEL for missing values: map them back"""
+    from common import NAN, NAN_SENTINEL
+    out = arr.copy()
+    flat = out.reshape(-1)
+    for i, v in enumerate(flat):
+        if v == NAN_SENTINEL or v == -NAN_SENTINEL:
+            flat[i] = NAN
+    return out
+
+
 def exact(arr):
     return np.array([frac(v) for v in np.asarray(arr).reshape(-1).tolist()], dtype=object).reshape(np.asarray(arr).shape)
 
